@@ -133,3 +133,19 @@ Proof.
   split; [exact consts_agree|]. split; [exact fork_overrides_agree|]. split; [exact is_fork_active_agrees|exact num_required_agrees].
 Qed.
 Print Assumptions C12_translated_source_agrees.
+
+(* The third tie: DiffPowermaps, Powermap.ValidatorUpdates and the comparator of SortValidators,
+   translated statement by statement from app/powermap.go on this run
+   (Generated/PowermapFuns.v; every `range` over a map is a fold over an explicit enumeration),
+   compute what the model computes - for every enumeration of the ranged maps. *)
+From Verif Require Import Generated.PowermapFuns Proofs.PowermapFuns.
+Theorem C12_translated_powermap_agrees :
+  (forall oldpm newpm oe ne, gen_diff_powermaps oldpm newpm oe ne = diff_powermaps_enum oldpm newpm oe ne) /\
+  gen_diff_ranged = [0%nat; 1%nat] /\
+  (forall pm e, gen_validator_updates pm e = validator_updates_enum e) /\
+  (forall a b, gen_validator_less a b = bytes_ltb a b).
+Proof.
+  split; [exact gen_diff_agrees|]. split; [exact gen_diff_ranged_ok|].
+  split; [exact gen_validator_updates_agrees|exact gen_validator_less_is_ltb].
+Qed.
+Print Assumptions C12_translated_powermap_agrees.
